@@ -29,8 +29,10 @@ Inductive lit := LUnit | LTrue | LFalse | LAlways | LSometimes | LNever | LHintN
 Inductive comb :=
 | CUnit                       (* `for s in self { s.m(args); }` *)
 | CAll                        (* `self.iter().all(|s| s.m(args))` *)
-| CInterestHighest            (* the "return highest level of interest" fold, starting from `never` *)
-| CInterestHighestOrAlways    (* the same fold, but an empty Vec answers `always` (fixes/F14.patch) *)
+| CInterestHighest            (* the former "return highest level of interest" fold, starting from `never` (before f08c5cd; kept so that
+                                 a tree with that body still has a faithful model: the table obligation rejects it) *)
+| CInterestHighestOrAlways    (* the same fold, but an empty Vec answers `always` (the superseded fixes/F14.patch) *)
+| CInterestAll                (* every element is asked; `never` if any says never, `always` iff all say always, else `sometimes` *)
 | CHintMax.                   (* max of the hints starting from OFF, `None` as soon as one element has no hint *)
 
 Inductive order := InnerOuter | OuterInner.
@@ -41,8 +43,8 @@ Inductive dcast :=
 | DcSelfOrFwd         (* own TypeId, else forward *)
 | DcFwd               (* plain forward *)
 | DcOption            (* own TypeId; NoneLayerMarker iff `is_none()`; else forward into `Some` *)
-| DcVec               (* own TypeId; psf marker needs all; else first element that answers *)
-| DcVecNoneIfEmpty    (* DcVec + NoneLayerMarker iff the Vec is empty (fixes/F14.patch) *)
+| DcVec               (* own TypeId; psf marker needs all; else first element that answers (before 178eca9) *)
+| DcVecNoneIfEmpty    (* DcVec + NoneLayerMarker iff the Vec is empty *)
 | DcReload            (* only the NoneLayerMarker query is forwarded *)
 | DcLayeredC          (* own TypeId, else subscriber.or_else(inner) *)
 | DcLayeredS          (* own TypeId; psf marker: and; else subscriber.or_else(inner) *)
